@@ -86,7 +86,11 @@ class Distortion:
             const = yr[0] / (np.tan(1e-10 *
                                     np.radians(self.optic.fields.max_field)))
 
-            if self.distortion_type == 'f-tan':
+            if self.optic.field_type == 'object_height':
+                # the field is a height, not an angle: the paraxial image
+                # height is the object height times the magnification
+                yp = yr[0] / 1e-10 * Hy
+            elif self.distortion_type == 'f-tan':
                 yp = const * np.tan(Hy *
                                     np.radians(self.optic.fields.max_field))
             elif self.distortion_type == 'f-theta':
